@@ -62,7 +62,7 @@ def refresh_marks_changed(ctx: Ctx, rep: Report, rid: str):
     g = ctx.cfg(f)
     for what in ("hash", "path"):
         stores = [n for n in g.nodes if cfg_root(n) is not None and isinstance(cfg_root(n), ast.Assign) and pat.match("%s[%s].%s = $V" % (ent, side, what), cfg_root(n)) is not None
-                  and pat.match("%s[%s].hash = self.providers[%s].hash_oid($$$)" % (ent, side, side), cfg_root(n)) is None]
+                  and not (isinstance(cfg_root(n).value, ast.Call) and isinstance(cfg_root(n).value.func, ast.Attribute) and cfg_root(n).value.func.attr == "hash_oid")]
         if not stores:
             raise AnalysisError("unconditionally_get_latest: store to %s[%s].%s not found" % (ent, side, what))
         stamp = lambda n: cfg_root(n) is not None and isinstance(cfg_root(n), ast.Assign) and pat.match("%s[%s].changed = $V" % (ent, side), cfg_root(n)) is not None   # noqa: E731
